@@ -137,6 +137,25 @@ def fronts (ord : List Row → List Row) : Nat → List Row → List (List Nat)
       (rem.filter (fun r => nds.contains r.1)).map (·.1) ::
         fronts ord fuel (rem.filter (fun r => !nds.contains r.1))
 
+/-! ### `is_pareto_efficient` and `pareto_front(sort=True)` -/
+
+/-- `is_pareto_efficient(new_obj, objvals)` = `np.all(np.any(new_obj < objvals, axis=1))`:
+for every row there is a coordinate where `new` is strictly smaller, i.e. no row weakly
+dominates `new`. -/
+def isParetoEfficient (new : Vec) (objs : List Vec) : Bool := objs.all (fun r => !wdVec r new)
+
+/-- lexicographic order on vectors: what `ndarray.argsort(order=[objective_0, objective_1, …])`
+on the structured array of front rows sorts by -/
+def lexLe : Vec → Vec → Bool
+  | [], _ => true
+  | _ :: _, [] => false
+  | a :: as, b :: bs => decide (a < b) || (decide (a = b) && lexLe as bs)
+
+/-- index part of `pareto_front(y, sort=True, return_idx=True)` -/
+def frontSortedIdx (pts : List Vec) (order : List Nat) : List Nat :=
+  (((ndsIdx pts order).filterMap (fun i => (pts[i]?).map (fun v => (i, v)))).mergeSort
+    (fun a b => lexLe a.2 b.2)).map (·.1)
+
 /-! ### executable specification (verified checker) -/
 
 /-- strict Pareto dominance under minimisation -/
